@@ -546,6 +546,9 @@ var c31Blockers = []struct {
 	{"if while :; do :; done; then :; fi", "nil", false},
 	{"[[ -n $(hang) ]]", "nil", false},
 	{"trap 'while :; do :; done' ERR; false", "nil", false},
+	{"trap 'while :; do :; done' EXIT; echo body", "nil", false},
+	{"mapfile -t arr", "pipe", false},
+	{"readarray lines", "pipe", false},
 	{"lf() { local v=$(while true; do :; done); }; lf", "nil", false},
 	{"echo \"$(while true; do :; done)\"", "nil", false},
 	{"true < <(hang); wait", "nil", false},
@@ -581,9 +584,10 @@ func c31GenTimed(r *Rand) c31Timed {
 		t.src = pre + body + "\necho after\n"
 		t.needErr = true
 	} else {
-		// the blocking point is the last command: `wait`, a loop fed by a finished reader … may
-		// complete with status 0, and Run then returns nil (known finding); only promptness here
+		// the blocking point is the last command: since 7cff692 Run reports the cancellation at
+		// its end even when that command (`wait`, a loop fed by a finished reader …) ends with 0
 		t.src = pre + body + "\n"
+		t.needErr = true
 	}
 	return t
 }
